@@ -5,6 +5,7 @@
 (* A scenario is a bounded sequence of operations on one connection:       *)
 (*   <<"seg", d, lo, hi, syn, fin>>  a segment carrying stream bytes        *)
 (*                                   [lo,hi) of direction d                 *)
+(*   <<"rst", d, p>>                 an empty RST segment at offset p       *)
 (*   <<"flushall">>, <<"flusholder", t>>                                    *)
 (* Operation i carries timestamp i.  TLC enumerates every scenario up to   *)
 (* the bounds; each is exported and replayed on the real assemblers.       *)
@@ -41,8 +42,8 @@ MinOf(S) == CHOOSE x \in S : \A y \in S : x <= y
 RECURSIVE RunEnd(_, _)
 RunEnd(a, S) == IF a \in S THEN RunEnd(a + 1, S) ELSE a
 
-SegEv(d, lo, hi, syn, fin, ts) ==
-  [op |-> "seg", c |-> 1, d |-> d, lo |-> lo, hi |-> hi, syn |-> syn, fin |-> fin, rst |-> FALSE,
+SegEv(d, lo, hi, syn, fin, rst, ts) ==
+  [op |-> "seg", c |-> 1, d |-> d, lo |-> lo, hi |-> hi, syn |-> syn, fin |-> fin, rst |-> rst,
    force |-> FALSE, ts |-> ts]
 SGEv(d, a, b, skip, end) ==
   [op |-> "sg", c |-> 1, d |-> d, srun |-> <<>>, nrun |-> (IF b > a THEN << <<a, b>> >> ELSE <<>>),
@@ -51,8 +52,10 @@ SGEv(d, a, b, skip, end) ==
 \* ideal reaction of half h to contiguous data: returns <<h', events>>
 DeliverContig(h, d) ==
   IF ~h.started \/ h.ended THEN <<h, <<>>>>
-  ELSE LET m == RunEnd(h.next, h.buf)
-           fin == \E f \in h.fins : f >= h.next /\ f <= m
+  ELSE LET m0 == RunEnd(h.next, h.buf)
+           fin == \E f \in h.fins : f >= h.next /\ f <= m0
+           \* the stream ends at the first FIN reached; bytes beyond it are not part of the stream
+           m == IF fin THEN MinOf({f \in h.fins : f >= h.next /\ f <= m0}) ELSE m0
        IN IF m = h.next /\ ~fin THEN <<h, <<>>>>
           ELSE <<[h EXCEPT !.next = m, !.buf = {x \in h.buf : x >= m}, !.ended = fin],
                  << SGEv(d, h.next, m, 0, fin) >> >>
@@ -62,8 +65,9 @@ RECURSIVE FlushHalf(_, _, _)
 FlushHalf(h, d, evs) ==
   IF h.ended \/ h.buf = {} THEN <<h, evs>>
   ELSE LET a == MinOf(h.buf)
-           m == RunEnd(a, h.buf)
-           fin == \E f \in h.fins : f >= a /\ f <= m
+           m0 == RunEnd(a, h.buf)
+           fin == \E f \in h.fins : f > a /\ f <= m0
+           m == IF fin THEN MinOf({f \in h.fins : f > a /\ f <= m0}) ELSE m0
            skip == IF h.started THEN a - h.next ELSE -1
            h2 == [h EXCEPT !.started = TRUE, !.next = m, !.buf = {x \in h.buf : x >= m}, !.ended = fin]
        IN FlushHalf(h2, d, Append(evs, SGEv(d, a, m, skip, fin)))
@@ -73,16 +77,16 @@ Init == /\ ops = <<>>
         /\ st = Judge(NewState, [op |-> "new", c |-> 1])[2]
         /\ verdicts = <<>>
 
-Seg(d, lo, hi, syn, fin) ==
+Seg(d, lo, hi, syn, fin, rst) ==
   LET ts == Len(ops) + 1
       h  == ideal[d]
       h1 == IF h.ended THEN h
             ELSE LET hs == IF syn /\ ~h.started THEN [h EXCEPT !.started = TRUE, !.next = 0] ELSE h
                  IN [hs EXCEPT !.buf = @ \cup {x \in lo..(hi - 1) : ~hs.started \/ x >= hs.next},
-                               !.fins = IF fin THEN @ \cup {hi} ELSE @]
+                               !.fins = IF fin \/ rst THEN @ \cup {hi} ELSE @]
       r  == DeliverContig(h1, d)
-      f  == Feed(st, <<SegEv(d, lo, hi, syn, fin, ts)>> \o r[2], 1, verdicts)
-  IN /\ ops' = Append(ops, <<"seg", d, lo, hi, syn, fin>>)
+      f  == Feed(st, <<SegEv(d, lo, hi, syn, fin, rst, ts)>> \o r[2], 1, verdicts)
+  IN /\ ops' = Append(ops, IF rst THEN <<"rst", d, lo>> ELSE <<"seg", d, lo, hi, syn, fin>>)
      /\ ideal' = [ideal EXCEPT ![d] = r[1]]
      /\ st' = f[1] /\ verdicts' = f[2]
 
@@ -110,8 +114,9 @@ Next ==
   /\ Len(ops) < MaxOps
   /\ \/ \E d \in Dirs, lo \in 0..(L - 1), hi \in 1..L :
            /\ lo < hi /\ hi - lo <= MaxSegLen
-           /\ \E fin \in {FALSE, TRUE} : (fin => hi = L) /\ Seg(d, lo, hi, FALSE, fin)
-     \/ \E d \in Dirs : Seg(d, 0, 0, TRUE, FALSE)         \* SYN
+           /\ \E fin \in {FALSE, TRUE} : (fin => hi = L) /\ Seg(d, lo, hi, FALSE, fin, FALSE)
+     \/ \E d \in Dirs, p \in 0..L : Seg(d, p, p, FALSE, FALSE, TRUE)   \* RST (possibly injected) at any position
+     \/ \E d \in Dirs : Seg(d, 0, 0, TRUE, FALSE, FALSE)  \* SYN
      \/ FlushAll
      \/ \E t \in {Len(ops), Len(ops) + 1} : t >= 2 /\ FlushOlder(t)
 
